@@ -63,6 +63,16 @@ func newReport(p string) *Report {
 }
 
 func (r *Report) add(rule, construct, pos string, st Status, detail string) {
+	// constructs are unique per rule: repeated names get an ordinal in order of appearance
+	n := 1
+	for _, x := range r.Results {
+		if x.Rule == rule && (x.Construct == construct || strings.HasPrefix(x.Construct, construct+" [")) {
+			n++
+		}
+	}
+	if n > 1 {
+		construct = fmt.Sprintf("%s [%d]", construct, n)
+	}
 	r.Results = append(r.Results, Result{Rule: rule, Construct: construct, Pos: pos, Status: st, Detail: detail})
 }
 func (r *Report) ok(rule, construct, pos, detail string) { r.add(rule, construct, pos, OK, detail) }
